@@ -13,7 +13,7 @@ class Boom(Exception):
 
 
 def cfg(level):
-    return ('INIT Init\nNEXT Next\nCONSTANTS MaxLevel = %d\n KIds = {1, 2}\n RIds = {1}\nCONSTRAINT Bounded\nCHECK_DEADLOCK FALSE\n'
+    return ('INIT Init\nNEXT Next\nCONSTANTS MaxLevel = %d\n KIds = {1, 2}\n RIds = {1}\n CIds = {1}\nCONSTRAINT Bounded\nCHECK_DEADLOCK FALSE\n'
             'INVARIANT NoOrphans\nACTION_CONSTRAINT StepProps\n' % level)
 
 
@@ -33,13 +33,19 @@ class World:
             id = PrimaryKey(int)
             p = Required(P, column='p_id')
             w = Optional(int)
+            cs = Set('C', cascade_delete=True)
 
         class R(db.Entity):
             _table_ = 'tr'
             id = PrimaryKey(int)
             p = Required(P, column='p_id')
 
-        self.E = {'P': P, 'K': K, 'R': R}
+        class C(db.Entity):
+            _table_ = 'tc'
+            id = PrimaryKey(int)
+            k = Required(K, column='k_id')
+
+        self.E = {'P': P, 'K': K, 'R': R, 'C': C}
         db.bind('sqlite', path, create_db=True)
         db.generate_mapping(create_tables=True)
 
@@ -47,7 +53,7 @@ class World:
         self.db.disconnect()
         con = sqlite3.connect(self.path, isolation_level=None)
         con.execute('PRAGMA foreign_keys=OFF')
-        for t in ('tk', 'tr', 'tp'):
+        for t in ('tc', 'tk', 'tr', 'tp'):
             con.execute('DELETE FROM ' + t)
         if state['p']:
             con.execute('INSERT INTO tp (id) VALUES (1)')
@@ -55,6 +61,8 @@ class World:
             con.execute('INSERT INTO tk (id, p_id, w) VALUES (?, 1, ?)', (k, 1 if k in state.get('W', ()) else None))
         for k in state['R']:
             con.execute('INSERT INTO tr (id, p_id) VALUES (?, 1)', (k,))
+        for k in state.get('C', ()):
+            con.execute('INSERT INTO tc (id, k_id) VALUES (?, 1)', (k,))
         con.close()
 
     def dump(self):
@@ -62,14 +70,15 @@ class World:
         p = con.execute('SELECT COUNT(*) FROM tp').fetchone()[0] == 1
         K = set(k for k, in con.execute('SELECT id FROM tk'))
         W = set(k for k, in con.execute('SELECT id FROM tk WHERE w IS NOT NULL'))
+        C = set(k for k, in con.execute('SELECT id FROM tc'))
         R = set(k for k, in con.execute('SELECT id FROM tr'))
         fk = con.execute('PRAGMA foreign_key_check').fetchall()
         con.close()
-        return {'p': p, 'K': K, 'R': R, 'W': W}, fk
+        return {'p': p, 'K': K, 'R': R, 'W': W, 'C': C}, fk
 
 
 def norm(s):
-    return {'p': s['p'], 'K': set(s['K']), 'R': set(s['R']), 'W': set(s.get('W', ()))}
+    return {'p': s['p'], 'K': set(s['K']), 'R': set(s['R']), 'W': set(s.get('W', ())), 'C': set(s.get('C', ()))}
 
 
 def look(w, st, rng):
@@ -98,6 +107,13 @@ def look(w, st, rng):
     for o in rs:
         same('R', o.id, o)
         out.add(('R', o.id))
+    C = w.E['C']
+    cs = C.select()[:] if form else [o for o in (C.get(id=i) for i in (1,)) if o is not None]
+    for o in cs:
+        same('C', o.id, o)
+        out.add(('C', o.id))
+        if o.k.id != 1 or o not in o.k.cs:
+            raise AssertionError('C[%d] is not in K[1].cs / its k is %r' % (o.id, o.k))
     if p is not None:
         inks = set(o.id for o in p.ks)
         inrs = set(o.id for o in p.rs)
@@ -131,6 +147,11 @@ def execute(w, st, ev, rng):
     if op == 'Look':
         return 'ok', look(w, st, rng)
     try:
+        if op == 'Create' and e == 'C':
+            k1 = st['objs'].get(('K', 1)) or w.E['K'][1]
+            st['objs'][('K', 1)] = k1
+            st['objs'][(e, k)] = w.E['C'](id=k, k=k1)
+            return 'ok', set()
         if op == 'Create':
             p = st['objs'].get(('P', 1)) or w.E['P'][1]
             st['objs'][('P', 1)] = p
@@ -147,6 +168,9 @@ def execute(w, st, ev, rng):
             st['objs'].pop((e, k), None)
             if e == 'P':
                 st['objs'] = {}
+            if e == 'K' and k == 1:
+                for key in [x for x in st['objs'] if x[0] == 'C']:
+                    st['objs'].pop(key)
             return 'ok', set()
     except core.ConstraintError:
         return 'ConstraintError', set()
@@ -183,7 +207,13 @@ def run(ctx, nbeh, level, seed):
                 key = rng.choice(fresh if fresh and rng.random() < 0.8 else keys)
                 ev0 = nodes[acts[key][0]]['ev']
                 try:
-                    out, ret = execute(w, st, ev0, rng)
+                    try:
+                        out, ret = execute(w, st, ev0, rng)
+                    except AssertionError:
+                        if key[0] == 'Look':
+                            raise           # the harness's own observation checks
+                        import traceback
+                        raise RuntimeError('AssertionError inside pony: ' + traceback.format_exc()[-600:])
                     if key[0] == 'Delete' and out == 'ConstraintError':
                         stats['refused_deletes'] += 1
                         if nodes[u]['new']:
